@@ -50,6 +50,17 @@ YNet:
 MODELS = ['A', 'B', 'C', 'D1', 'D3', 'F', 'G', 'Y']
 KINDS = ['grf0', 'grf1', 'run', 'runk', 'jac', 'upd', 'clr', 'again', 'fail', 'opapply']
 GLOBAL_OPS = [['cfc', None]]
+# operations that exist for selected models only: recompilation of a stored template object with vectorize=False
+# (again0), compilation with a decorator and two different decorator arguments (dec1/dec2; A and C generate the same
+# source text)
+EXTRA_OPS = [['again0', 'G'], ['again0', 'D3'], ['again0', 'A'], ['dec1', 'A'], ['dec2', 'A'], ['dec2', 'C']]
+
+
+def _scaled(func, factor=1.0):
+    def wrapped(*args):
+        return factor * np.asarray(func(*args))
+    return wrapped
+
 
 
 # direct evaluation of parsed expressions (ExpressionParser + eval_node): pairs that share sub-expressions but differ in
@@ -60,7 +71,7 @@ EXPR_VALS = {'a': 0.7, 'b': 1.3, 'r': 0.45, 'rr': 2.1, 'weight': 1.6}
 
 
 def all_ops():
-    return [[k, m] for m in MODELS for k in KINDS] + GLOBAL_OPS + [['ev', i] for i in range(len(EXPRS))]
+    return [[k, m] for m in MODELS for k in KINDS] + GLOBAL_OPS + EXTRA_OPS + [['ev', i] for i in range(len(EXPRS))]
 
 
 def build(model, store):
@@ -82,7 +93,15 @@ def build(model, store):
         nd = store['Dnode']
         labels = ['a'] if model == 'D1' else ['a', 'b', 'cc']
         return CircuitTemplate(model, nodes={l: nd for l in labels})
-    if model in ('F', 'G'):   # edges (in_edge counters); F: an input is added by the ops, G: none (same object recompiled)
+    if model == 'G':   # edges between nodes of which two are merged by the vectorization; no inputs (same object recompiled)
+        so = OperatorTemplate('so', equations=["d/dt * x = -k*x"], variables={'x': 'output(0.8)', 'k': 0.5})
+        to = OperatorTemplate('to', equations=["d/dt * v = -v + u + w"],
+                              variables={'v': 'output(0.1)', 'u': 'input(0.0)', 'w': 'input(0.0)'})
+        g = NodeTemplate('g', operators=[to])
+        return CircuitTemplate(model, nodes={'s': NodeTemplate('s', operators=[so]), 'g': g, 'g2': g},
+                               edges=[('s/so/x', 'g/to/u', None, {'weight': 2.0}), ('g/to/v', 'g2/to/u', None, {'weight': 0.5}),
+                                      ('g2/to/v', 'g/to/w', None, {'weight': -0.25})])
+    if model == 'F':   # edges (in_edge counters); an input is added by the ops
         so = OperatorTemplate('so', equations=["d/dt * x = -k*x"], variables={'x': 'output(0.8)', 'k': 0.5})
         to = OperatorTemplate('to', equations=["d/dt * v = -v + u + w"],
                               variables={'v': 'output(0.1)', 'u': 'input(0.0)', 'w': 'input(0.0)'})
@@ -102,7 +121,7 @@ def inputs_of(model):
     return None
 
 
-OUT = {'G': 'g/to/v', 'A': 'n/op/x', 'B': 'n/op/x', 'C': 'n/opc/x', 'D1': 'all/opd/x', 'D3': 'all/opd/x', 'F': 'g/to/v', 'Y': 'n/yop2/x'}
+OUT = {'G': 'g2/to/v', 'A': 'n/op/x', 'B': 'n/op/x', 'C': 'n/opc/x', 'D1': 'all/opd/x', 'D3': 'all/opd/x', 'F': 'g/to/v', 'Y': 'n/yop2/x'}
 UPD = {'G': 's/so/k', 'A': 'n/op/k', 'B': 'n/op/k', 'C': 'n/opc/k', 'D1': 'a/opd/k', 'D3': 'b/opd/k', 'F': 's/so/k', 'Y': 'n/yop2/k'}
 
 
@@ -155,13 +174,13 @@ def do_op(op, store, live):
             return {'kind': 'noop'}
         t.clear()
         return {'kind': 'cleared'}
-    if kind == 'again':
+    if kind in ('again', 'again0'):
         # compile the template object that an earlier operation left behind once more (default in_place=True)
         t = store.get(('tpl', model))
         if t is None:
             return {'kind': 'noop'}
         inp = inputs_of(model)
-        f, a, n, s = t.get_run_func('vf', vectorize=True, clear=False,
+        f, a, n, s = t.get_run_func('vf', vectorize=(kind == 'again'), clear=False,
                                     inputs={k: v.copy() for k, v in inp.items()} if inp else None, **kw)
         o = obs_func(f, a, n, s)
         live.append((f, [x.copy() if hasattr(x, 'copy') else x for x in a], n, s, o))
@@ -183,9 +202,11 @@ def do_op(op, store, live):
         except Exception as e:
             return {'kind': 'failed', 'exc': type(e).__name__}
         return {'kind': 'did_not_fail'}
-    if kind in ('grf0', 'grf1', 'upd'):
+    if kind in ('grf0', 'grf1', 'upd', 'dec1', 'dec2'):
         if kind == 'upd':
             circ.update_var(node_vars={UPD[model]: 7.0})
+        if kind in ('dec1', 'dec2'):
+            kw.update(decorator=_scaled, decorator_kwargs={'factor': -1.0 if kind == 'dec1' else 0.5})
         f, a, n, s = circ.get_run_func('vf', vectorize=(kind != 'grf0'), clear=False,
                                        inputs={k: v.copy() for k, v in inp.items()} if inp else None, **kw)
         store[('tpl', model)] = circ
@@ -266,6 +287,9 @@ def fresh_interpreter_solo(ops):
     return out
 
 
+STORING = ('grf0', 'grf1', 'upd', 'jac', 'runk', 'dec1', 'dec2')
+
+
 def features(history, i):
     """collision classes between the op at step i and the ops before it"""
     kind, model = history[i]
@@ -282,11 +306,11 @@ def features(history, i):
         f.add('same_model_before')
     if model == 'Y' and 'Y' in pm:
         f.add('yaml_template_loaded_before')
-    if any(k in ('grf0', 'grf1', 'jac', 'runk', 'upd') for k, _ in prev):
+    if any(k in ('grf0', 'grf1', 'jac', 'runk', 'upd', 'dec1', 'dec2') for k, _ in prev):
         f.add('uncleared_compile_before')
-    if kind == 'again':
-        last = [k for k, m_ in prev if m_ == model and k in ('grf0', 'grf1', 'upd', 'jac', 'runk')]
-        if last and last[-1] in ('grf0', 'jac'):
+    if kind in ('again', 'again0'):
+        last = [k for k, m_ in prev if m_ == model and k in STORING]
+        if last and (last[-1] in ('grf0', 'jac')) == (kind == 'again'):
             f.add('same_template_recompiled_with_other_vectorize')
     return sorted(f)
 
@@ -330,12 +354,18 @@ def main(ev, tier, seed):
                 exp = solo[json.dumps(h[i])]
                 if h[i][0] == 'clr':
                     continue   # clear() of a stored template has no solo counterpart (its effect is checked via others)
-                if h[i][0] == 'again':
+                if h[i][0] in ('again', 'again0'):
                     # the same template object compiled again must give the function of its last fresh compilation
-                    last = [k for k, m_ in h[:i] if m_ == h[i][1] and k in ('grf0', 'grf1', 'upd', 'jac', 'runk')]
+                    last = [k for k, m_ in h[:i] if m_ == h[i][1] and k in STORING]
                     if not last:
                         continue
-                    ref = solo[json.dumps(['upd' if last[-1] == 'upd' else 'grf1', h[i][1]])]
+                    if h[i][0] == 'again0' and last[-1] in ('upd', 'runk'):
+                        # no solo counterpart: update_var + non-vectorized compile is not in the alphabet, and after
+                        # run(clear=False) the template carries the final state of that run for continuation, which
+                        # PyRates refuses (loudly) to map onto another vectorization
+                        continue
+                    ref = solo[json.dumps(['grf0' if h[i][0] == 'again0' else 'upd' if last[-1] == 'upd' else 'grf1',
+                                           h[i][1]])]
                     exp = {k: ref[k] for k in ('fabs', 'names', 'svm', 'args')} if 'fabs' in ref else ref
                 if o != exp and i == len(h) - 1:     # earlier steps were reported at their own level
                     kind = 'raises' if 'raises' in o else 'observation_differs'
@@ -366,7 +396,8 @@ def main(ev, tier, seed):
             ev.sample({'history': nxt[len(nxt) // 2], 'level': lvl})
     if depth < 3:
         # depth-3 slice over a reduced alphabet (A-B-A patterns with uncleared compilations)
-        small = [['grf0', 'A'], ['grf0', 'B'], ['grf1', 'C'], ['runk', 'A'], ['again', 'G'], ['grf1', 'G']]
+        small = [['grf0', 'A'], ['grf0', 'B'], ['grf1', 'C'], ['runk', 'A'], ['again', 'G'], ['grf1', 'G'], ['again0', 'G'],
+                 ['dec1', 'A'], ['dec2', 'C']]
         import itertools
         cases = [{'history': [list(o) for o in hh]} for hh in itertools.product(small, repeat=3)]
         for case, res in pool.run('C13', cases, chunksize=4):
@@ -374,7 +405,7 @@ def main(ev, tier, seed):
             n_hist += 1
             transitions += 1
             for i, o in enumerate(res.get('obs', [])):
-                if h[i][0] == 'again':
+                if h[i][0] in ('again', 'again0'):
                     continue
                 exp = solo[json.dumps(h[i])]
                 if o != exp:
@@ -392,8 +423,8 @@ def main(ev, tier, seed):
                    'evaluations': n_hist, 'depth_completed': depth, 'ops': len(ops),
                    'fresh_interpreter_crosschecks': len(fresh), 'distinct_observations': len(distinct_obs),
                    'exhaustive': True,
-                   'rule': 'BFS over all sequences of the operation alphabet (7 colliding models x {get_run_func vec on/off, '
-                           'run clear on/off, get_jacobian_func, update_var+compile, clear} + clear_frontend_caches) up to the '
+                   'rule': 'BFS over all sequences of the operation alphabet (8 colliding models x {get_run_func vec on/off, '
+                           'run clear on/off, get_jacobian_func, update_var+compile, clear, recompile, failing compile, direct operator apply} + recompile with vectorize off, decorated compiles with two decorator arguments, 8 direct expression evaluations, clear_frontend_caches) up to the '
                            'depth bound; each history replayed on the real code from the import-time state; states hashed '
                            'over all module-level containers, working directory and stored templates; oracle: every op '
                            'observes what it observes as the first op of a pristine process; returned functions re-evaluated'})
